@@ -45,7 +45,7 @@ from engine.core import MachineryError, digest
 OWN = 'P4'
 C4_ACTIONS = ['AddHandler', 'Start', 'XReqCall', 'XRsrcCall', 'XResponder', 'XRespCall', 'RenderCall', 'XRenderFail', 'RenderBad', 'Route',
               'NotFound', 'HandleCall', 'NextRequest']
-ALL_BEHS = ['set', 'setbad', 'noop', 'http', 'status', 'other']
+ALL_BEHS = ['set', 'setbad', 'noop', 'http', 'status', 'draftst', 'drafterr', 'other']
 
 
 def mt_text(m):
@@ -104,7 +104,7 @@ def check_render(ctx, cell, fields, asgi, leg, site='responder', own_vary=None):
     case = {'leg': leg, 'iface': 'asgi' if asgi else 'wsgi', 'site': site, 'own_vary': own_vary, 'accept': accept, 'xmlOn': cell['xmlOn'], 'extra': extra,
             'err': e, 'fields': vars(f), 'spec': out}
     if res.exc is not None or ex is None:
-        ctx.violation('P4:escaped', case, 'exception left the app: %r' % (res.exc,))
+        ctx.violation('P4:escaped', case, 'exception left the app: %r' % (H.safe_repr(res.exc),))
         return None, case
     if res.errors:
         ctx.violation('P4:protocol', case, 'protocol errors %r' % (res.errors,))
@@ -225,7 +225,11 @@ def run(ctx):
     r = ctx.tlc('MC_Pipeline', ctx.pick('MC_PipelineHQ.cfg', 'MC_PipelineH.cfg'), coverage=True, env=env,
                 workers=ctx.pick(8, 16), timeout=ctx.pick(280, 1500))
     ctx.extra['action_coverage'] = H.require_actions(r, C4_ACTIONS)
-    H.wrong_designs(ctx, env, ['mro_reversed', 'first_reg_wins', 'no_reset', 'render_drops_body'])
+    H.wrong_designs(ctx, env, ['mro_reversed', 'first_reg_wins', 'no_reset', 'render_drops_body', 'status_keeps_draft'])
+    # registration histories on a depth-3 chain / diamond: the same handler object registered again for descendants,
+    # a request after every registration
+    rg = ctx.tlc('MC_Pipeline', ctx.pick('MC_PipelineG.cfg', 'MC_PipelineG2.cfg'), coverage=True, env=env, workers=8, timeout=600)
+    H.require_actions(rg, ['AddHandler', 'XAddSame', 'NextRequest', 'HandleCall'])
     rt = ctx.tlc('MC_ErrorRender', ctx.pick('MC_ErrorRenderQ.cfg', 'MC_ErrorRender.cfg'), coverage=True, workers=2, timeout=300)
     H.require_actions(rt, ['XRenderError'])
     table = list({digest(c): c for c in rt.json}.values())
@@ -253,6 +257,10 @@ def run(ctx):
         rng.shuffle(sessions)
         sessions = sessions[:cap]
     H.replay_behaviours(ctx, OWN, sessions, both=False, seen_other=seen_other, label='leg A (two-request sessions)', rich=True)
+    rg = ctx.tlc('MC_PipelineS', ctx.pick('MC_PipelineS_G.cfg', 'MC_PipelineS_G2.cfg'), env=env, workers=4, timeout=600, count=False)
+    hist = list({digest(b): b for b in rg.json}.values())
+    ctx.extra['spec_registration_histories_exported'] = len(hist)
+    H.replay_behaviours(ctx, OWN, hist, both=True, seen_other=seen_other, label='leg A (registration histories)', rich=False)
     rs = ctx.tlc('MC_PipelineS', 'MC_PipelineS_HSim.cfg', env=env, simulate={'num': ctx.pick(120, 3000)}, depth=40,
                  seed=ctx.seed + 1, workers=4, timeout=600, count=False)
     deep = list({digest(b): b for b in rs.json}.values())
@@ -294,7 +302,13 @@ def run(ctx):
     # ---- leg B: random registries ------------------------------------------------------------------
     items = []
     for k in range(ctx.pick(4000, 90000)):
-        regs = [{'cls': rng.choice(H.ALL_CLASSES), 'beh': rng.choice(ALL_BEHS)} for _ in range(rng.randint(0, 6))]
+        regs = []
+        for j in range(rng.randint(0, 6)):
+            if regs and rng.random() < 0.3:         # the same handler object again, for another (often related) class
+                ref = rng.choice(regs)
+                regs.append({'cls': rng.choice(H.ALL_CLASSES), 'beh': ref['beh'], 'obj': ref['obj']})
+            else:
+                regs.append({'cls': rng.choice(H.ALL_CLASSES), 'beh': rng.choice(ALL_BEHS), 'obj': 4 + j})
         trace, case, runs = H.random_trace(rng, asgi=bool(k & 1), ncomp=rng.randint(0, 3), maxhooks=1, regs=regs,
                                            classes=H.ALL_CLASSES, maxfaults=3, render_p=0.15, rich=True,
                                            nreqs=rng.choice([1, 2, 2, 3]))
@@ -365,7 +379,7 @@ def replay(ctx, case):
                                     site=case.get('site', 'responder'), own_vary=case.get('own_vary'),
                                     shape=case['err'].get('shape', 'plain'), ctor=case['err'].get('ctor'),
                                     status=case['err']['status'])
-        print('status:', res.status, 'headers:', res.headers, '\nbody:', res.body, '\nexc:', res.exc)
+        print('status:', res.status, 'headers:', res.headers, '\nbody:', res.body, '\nexc:', H.safe_repr(res.exc))
         obs = observe_render(ex, res, hs, case.get('own_vary'))
         obs['own'] = H.own_observed(res)
         obs['shape'] = case['err'].get('shape', 'plain')
